@@ -148,6 +148,15 @@ func forall(lo, hi int, f func(int) bool) bool {
 //@   modifies s.state
 //@   ensures s.state.pendingSnapshot == nil && s.state.checkpointID == old(s.state.checkpointID) && same(s.state.completedSnapshots, old(s.state.completedSnapshots))
 
+// Every (re)start of the job registers the source splitter of the NEW assembly. The store finishes
+// a completed checkpoint with exactly one registered splitter (finishSnapshot), so after a
+// recovery checkpointing can only resume if the new splitter REPLACES the one of the failed
+// assembly: exactly the newly registered splitter is registered afterwards.
+//@ func Store.RegisterSourceSplitter
+//@   property C15 C12
+//@   modifies s.sourceSplitters
+//@   ensures len(s.sourceSplitters) == 1 && s.sourceSplitters[0] == splitter
+
 // ---- restart (C13): the job resumes from the completed checkpoint with the
 // highest id present in its storage, whatever order the storage lists files in.
 // ghostListing: what the storage location lists (stable while LoadCheckpoint runs);
